@@ -16,3 +16,10 @@ pub fn fmt_stub(_args: core::fmt::Arguments<'_>) -> String {
 /// `String::push_str` while the generated wrapper builds the *text* of its "unsupported message"
 /// error with `acc + message + ", "` (outside every claim): the string is left unchanged.
 pub fn push_str_stub(_s: &mut String, _o: &str) {}
+
+/// `<Addr as Display>::fmt` is `write!(f, "{}", &self.0)`; going through `fmt::Arguments` makes the
+/// length of the produced string opaque to CBMC (a second `to_string()` of it then does not finish).
+/// Observationally the same: write the address string.
+pub fn addr_fmt_stub(a: &cosmwasm_std::Addr, f: &mut core::fmt::Formatter<'_>) -> core::fmt::Result {
+    f.write_str(a.as_str())
+}
